@@ -71,6 +71,8 @@ def generate(rng, tier):
 
 
 def shrink(line, still_bad):
+    if mfree.is_mf(line):
+        return line        # carries its own expectation: not shrunk
     return vlib.shrink_history(line, still_bad)
 
 
